@@ -700,6 +700,12 @@ impl MutableArchive {
         self.attributes_dirty = false;
         self.modified_blocks.clear();
 
+        // Table positions recorded by earlier flushes belong to the replaced file
+        self.updated_het_pos = None;
+        self.updated_bet_pos = None;
+        self.updated_hash_table_pos = None;
+        self.updated_block_table_pos = None;
+
         Ok(())
     }
 
